@@ -7,27 +7,33 @@ Local Open Scope N_scope.
 
 (* On an AES-GCM protected stream, whatever frame sequence fs' an on-path party hands to the
    receiver (edited, injected incl. empty frames, dropped, duplicated, reordered, replayed,
-   truncated: fs' is ARBITRARY, built from raw bytes and from ciphertexts the sender produced
-   in this direction), the messages delivered before the first error, through
+   truncated: fs' is ARBITRARY, built from raw bytes, from ciphertexts the sender produced in
+   this direction, and from ciphertexts of ANOTHER direction under the same key - typically
+   what the receiver itself sent, i.e. reflection - [known_ok]), the messages delivered
+   before the first error, through
    ReceiveCompleteMessage or the Message-layer reader, are an in-order, byte-identical prefix
    of the messages of the sender's history h, with the boundaries intact; an incomplete
-   trailing message is never delivered. *)
+   trailing message is never delivered. [reflect_safe] is what defuses the foreign
+   ciphertexts: the two directions' base IVs differ beyond the counter word (96 random bits),
+   and while the receiver still waits for its first frame the foreign first frame is bound to
+   other handshake digests than the receiver expects (after every real handshake the two
+   directions carried different cleartext). With no foreign traffic take [no_other]. *)
 Theorem C02_prefix :
   forall api, api = ApiComplete \/ api = ApiMessage ->
-  forall (h : list msg) (A B A1 : stream) (fs fs' : list frame) (k : bytes) (K : ctext -> Prop) (n : nat),
-    duplex A B -> key A = Some k -> encrypted A = true -> wf_send A ->
+  forall (h : list msg) (A B A1 : stream) (fs fs' : list frame) (k : bytes) (o : other_dir) (K : ctext -> Prop) (n : nat),
+    duplex A B -> key A = Some k -> encrypted A = true -> wf_send A -> reflect_safe A B o ->
     send_all A h = (A1, SOk fs) ->
-    known_ok k (enc_iv A) (enc_ctr A) fs K -> uses_only K fs' ->
+    known_ok k (enc_iv A) (enc_ctr A) fs o K -> uses_only K fs' ->
     prefix (snd (fst (fst (recv_upto api B n fs')))) (map payload_of h).
 Proof. exact delivered_is_prefix. Qed.
 Print Assumptions C02_prefix.
 
 (* The same through StartMessageRead / ReadMessageBytes / EndMessageRead. *)
 Theorem C02_prefix_start_read_end :
-  forall (h : list msg) (A B A1 : stream) (fs fs' : list frame) (k : bytes) (K : ctext -> Prop) (n : nat),
-    duplex A B -> rclean B -> key A = Some k -> encrypted A = true -> wf_send A ->
+  forall (h : list msg) (A B A1 : stream) (fs fs' : list frame) (k : bytes) (o : other_dir) (K : ctext -> Prop) (n : nat),
+    duplex A B -> rclean B -> key A = Some k -> encrypted A = true -> wf_send A -> reflect_safe A B o ->
     send_all A h = (A1, SOk fs) ->
-    known_ok k (enc_iv A) (enc_ctr A) fs K -> uses_only K fs' ->
+    known_ok k (enc_iv A) (enc_ctr A) fs o K -> uses_only K fs' ->
     prefix (snd (fst (fst (recv_upto ApiStartReadEnd B n fs')))) (map payload_of h).
 Proof. exact delivered_is_prefix_sre. Qed.
 Print Assumptions C02_prefix_start_read_end.
@@ -35,10 +41,10 @@ Print Assumptions C02_prefix_start_read_end.
 (* Frame level: the (payload, end flag) pairs accepted before the first rejection are a
    prefix of what the sender sent. *)
 Theorem C02_frames_prefix :
-  forall (fs' : list frame) (A B : stream) (k : bytes) (K : ctext -> Prop)
+  forall (fs' : list frame) (A B : stream) (k : bytes) (o : other_dir) (K : ctext -> Prop)
          (tr : list (bytes * N)) (fs : list frame) (A' : stream),
-    duplex A B -> key A = Some k -> encrypted A = true -> wf_send A ->
-    sent A tr fs A' -> known_ok k (enc_iv A) (enc_ctr A) fs K -> uses_only K fs' ->
+    duplex A B -> key A = Some k -> encrypted A = true -> wf_send A -> reflect_safe A B o ->
+    sent A tr fs A' -> known_ok k (enc_iv A) (enc_ctr A) fs o K -> uses_only K fs' ->
     prefix (snd (recv_frames B fs')) tr.
 Proof. exact prefix_frames. Qed.
 Print Assumptions C02_frames_prefix.
@@ -47,10 +53,10 @@ Print Assumptions C02_frames_prefix.
    that is not the genuine frame of its position is rejected (error at or before the first
    affected message). *)
 Theorem C02_detect :
-  forall (fs' : list frame) (A B : stream) (k : bytes) (K : ctext -> Prop)
+  forall (fs' : list frame) (A B : stream) (k : bytes) (o : other_dir) (K : ctext -> Prop)
          (tr : list (bytes * N)) (fs : list frame) (A' : stream),
-    duplex A B -> key A = Some k -> encrypted A = true -> wf_send A ->
-    sent A tr fs A' -> known_ok k (enc_iv A) (enc_ctr A) fs K -> uses_only K fs' ->
+    duplex A B -> key A = Some k -> encrypted A = true -> wf_send A -> reflect_safe A B o ->
+    sent A tr fs A' -> known_ok k (enc_iv A) (enc_ctr A) fs o K -> uses_only K fs' ->
     prefix (accepted B fs') fs.
 Proof. exact accepted_prefix_of_wire. Qed.
 Print Assumptions C02_detect.
@@ -84,7 +90,8 @@ Print Assumptions C02_reflection_rejected.
 
 (* non-vacuity: two freshly keyed ends satisfy every hypothesis *)
 Example C02_hypotheses_satisfiable :
-  exists A B k, duplex A B /\ key A = Some k /\ encrypted A = true /\ wf_send A.
+  exists A B k, duplex A B /\ key A = Some k /\ encrypted A = true /\ wf_send A /\
+                reflect_safe A B {| o_iv := enc_iv B; o_ds := DHash [x01]; o_dr := DZero |}.
 Proof.
   set (k := repeat x01 32).
   destruct (set_key new_stream k (repeat x07 16)) as [A|] eqn:EA; [|discriminate].
@@ -92,5 +99,8 @@ Proof.
   exists A, B, k. vm_compute in EA, EB. injection EA as <-. injection EB as <-.
   split; [split; constructor; try reflexivity; try apply dsim_refl; intro H; inversion H|].
   split; [reflexivity|]. split; [reflexivity|].
-  split; [split; intro; reflexivity|]. vm_compute. discriminate.
+  split; [split; [split; intro; reflexivity|vm_compute; discriminate]|].
+  unfold reflect_safe. cbn [o_iv o_ds o_dr enc_iv dec_ctr recv_dg send_dg].
+  split; [vm_compute; repeat constructor|]. split; [vm_compute; repeat constructor|].
+  split; [vm_compute; discriminate|]. intros _. left. vm_compute. discriminate.
 Qed.
